@@ -2,6 +2,7 @@ import Poulpy.Driver.Util
 import Poulpy.Model.Ckks
 import Poulpy.Model.CkksData
 import Poulpy.Model.CkksMulData
+import Poulpy.Model.CkksConv
 import Poulpy.Driver.Ep
 /-!
 Wire format of the `ckks` command (model side; `harness/src/cmd_ckks.rs` prints the same form).
@@ -256,7 +257,44 @@ def parseKey (n : Nat) (s : String) : Core.GGLWE :=
     | _ => { base2k := 0, n := n, colsIn := 0, colsOut := 0, dsize := 1, dnum := 0, size := 0, cells := [] }
   | _ => { base2k := 0, n := n, colsIn := 0, colsOut := 0, dsize := 1, dnum := 0, size := 0, cells := [] }
 
+/-- `m:e+m:e…` = the exact sum of the terms, `nan`, `inf`, `-inf`; `-` = absent -/
+def parseFVal (s : String) : Option FVal :=
+  if s == "nan" then some .nan
+  else if s == "inf" then some (.inf false)
+  else if s == "-inf" then some (.inf true)
+  else if s == "-" then none
+  else
+    let terms : List (Int × Int) := (s.splitOn "+").filterMap (fun t =>
+      match t.splitOn ":" with
+      | [m, e] => some (int! m, int! e)
+      | _ => none)
+    let emin := terms.foldl (fun a t => min a t.2) 0
+    some (.fin (terms.foldl (fun a t => a + t.1 * 2 ^ (t.2 - emin).toNat) 0) emin)
+
+def showDigits (l : List Int) : String := ".".intercalate (l.map toString)
+
+/-- `toznx float=… form=vec|cst base2k= delta= budget= [k=] vals=…` (see `Model/CkksConv.lean`) -/
+def handleToZnx (ts : List String) : String :=
+  let ty : FloatTy := if kv ts "float" == some "f128" then .f128 else .f64
+  let b := kvNat ts "base2k"
+  let md : Meta := ⟨kvNat ts "delta", kvNat ts "budget"⟩
+  let raw := (((kv ts "vals").getD "").splitOn ";").filter (fun s => !s.isEmpty)
+  let vals := raw.map parseFVal
+  if kv ts "form" == some "cst" then
+    match toZnxCst ty b (kvNat ts "k") md.logDelta (vals.getD 0 none) (vals.getD 1 none) with
+    | .ok (r, i, m) =>
+      let sh : Option (List Int) → String := fun | none => "-" | some l => showDigits l
+      s!"ok {sh r}/{sh i} meta={m.logDelta}.{m.logBudget}"
+    | .err e => s!"err:{e}"
+    | .panic p => s!"panic:{p}"
+  else
+    match toZnxVec ty b md vals.length (vals.map (fun v => v.getD (.fin 0 0))) with
+    | .ok ds => "ok " ++ ",".intercalate (ds.map showDigits)
+    | .err e => s!"err:{e}"
+    | .panic p => s!"panic:{p}"
+
 def handle (ts : List String) : String :=
+  if ts.head? == some "toznx" then handleToZnx ts else
   let env : Env := ⟨kvNat ts "base2k", kvInts ts "keys", kvNat ts "maxprec"⟩
   let pool := parsePool ((kv ts "pool").getD "")
   let ops := ((kv ts "ops").getD "").splitOn ";" |>.filter (fun s => !s.isEmpty)
